@@ -103,6 +103,11 @@ def build_dataset(spec):
     return Dataset(m, descriptors=dict(spec['descriptors']), obs_descriptors=obs, channel_descriptors=ch)
 
 
+def _scalar_valued(v):
+    """a descriptor whose entries are scalars (usable to select / group by)"""
+    return np.asarray(v, dtype=object).ndim == 1 if not isinstance(v, np.ndarray) else v.ndim == 1
+
+
 class DataOps:
     def __init__(self, pool, family):
         self.pool = pool
@@ -300,7 +305,7 @@ class DataOps:
                     break
 
     def _by(self, d, k, exclude=('ouid', 'cuid')):
-        keys = sorted(x for x in d.keys() if x not in exclude) + [x for x in ('ouid', 'cuid') if x in d]      # never by dict order
+        keys = sorted(x for x in d.keys() if x not in exclude and _scalar_valued(d[x])) + [x for x in ('ouid', 'cuid') if x in d]      # never by dict order
         # (merge_datasets and from_df order descriptor keys by iterating sets)
         return keys[k % len(keys)] if keys else None
 
@@ -324,7 +329,8 @@ class DataOps:
         if by is None:
             return False
         if axis == 'time':
-            by = sorted(d.keys())[o['a'][0] % len(d)]
+            ks = sorted(k for k in d.keys() if _scalar_valued(d[k]))
+            by = ks[o['a'][0] % len(ks)]
         vals = normlist(d[by])
         if len({type(v) for v in vals}) != 1:
             return False
@@ -550,7 +556,7 @@ class DataOps:
         src = self.pick(o, kinds=('dataset',))
         if src is None:
             return False
-        keys = sorted(src.obj.obs_descriptors.keys())
+        keys = sorted(k for k, v in src.obj.obs_descriptors.items() if _scalar_valued(v))
         if len(keys) < 2:
             return False
         l1 = keys[o['a'][0] % len(keys)]
